@@ -224,7 +224,7 @@ func bfs(c *explore.Ctx, pool *explore.Pool, spec seqSpec, prop string) seqStats
 			if err == nil {
 				json.Unmarshal(b, &res[i])
 			} else {
-				res[i].Viol = []string{"worker crashed: " + err.Error()}
+				res[i].Viol = explore.CrashViol(err)
 			}
 		})
 		for i, r := range res {
@@ -269,7 +269,7 @@ func bfs(c *explore.Ctx, pool *explore.Pool, spec seqSpec, prop string) seqStats
 		for i := range tasks {
 			st.Transitions++
 			if errs[i] != nil {
-				results[i].Viol = []string{"worker crashed or timed out: " + errs[i].Error()}
+				results[i].Viol = explore.CrashViol(errs[i])
 			}
 			r := results[i]
 			for k, v := range r.Extra {
@@ -414,6 +414,9 @@ func reportSeq(c *explore.Ctx, pool *explore.Pool, prop string, t seqTask, r seq
 		var rr seqResult
 		if err == nil && json.Unmarshal(b, &rr) == nil && len(rr.Viol) > 0 && rr.Viol[0] == r.Viol[0] {
 			same++
+		} else if cv := explore.CrashViol(err); cv != nil && len(r.Viol) > 0 && stripDigits(cv[0]) == stripDigits(r.Viol[0]) {
+			// the same worker failure again (CPU-loop watchdog, crash): reproduced
+			same++
 		}
 	})
 	if same != 5 {
@@ -455,4 +458,14 @@ func sortedKeys(m map[string]int) []string {
 	}
 	sort.Strings(ks)
 	return ks
+}
+
+func stripDigits(s string) string {
+	b := make([]byte, 0, len(s))
+	for i := 0; i < len(s); i++ {
+		if s[i] < '0' || s[i] > '9' {
+			b = append(b, s[i])
+		}
+	}
+	return string(b)
 }
